@@ -159,7 +159,8 @@ static void dvm_hook(const char *file, int line) {
 	int p = P.p_permille;
 	if (P.strat == STRAT_SITE) {
 		uint32_t h = (uint32_t)line * 2654435761u;
-		for (const char *c = file; *c; c++) h = (h ^ (uint8_t)*c) * 16777619u;
+		const char *base = strrchr(file, '/'); base = base ? base + 1 : file;     // directory-independent: the same source gives the same sites in any build tree
+		for (const char *c = base; *c; c++) h = (h ^ (uint8_t)*c) * 16777619u;
 		if (P.site_mask & (1u << (h % 32))) p = P.p_hot_permille;
 	} else if (P.strat == STRAT_BURST) {
 		for (int i = 0; i < P.nburst; i++) if (P.burst[i] == step) { perturb(r); return; }
